@@ -125,7 +125,25 @@ def _fmt_pos(r, c, nota):
     return (ref,)
 
 
-def _method_call(sim, ds, table, method, pos, payload):
+BORDER_SIDES = ["top", "right", "bottom", "left", ["top"], ["left", "bottom"], ["top", "right", "bottom", "left"], ["right", "top"]]
+FORMAT_VARIANTS = [("number", {"decimal_places": 2}), ("currency", {"currency_code": "EUR", "decimal_places": 1}), ("percentage", {"decimal_places": 0}),
+                   ("scientific", {"decimal_places": 3}), ("base", {"base": 16}), ("fraction", {}), ("number", {"show_thousands_separator": True})]
+
+
+def border_variant(variant, r, c, nrows, ncols):
+    """(side or list of sides, length or None) for a variant number: every side form x stroke lengths that fit the table."""
+    if variant is None:
+        return "top", None
+    side = BORDER_SIDES[variant % len(BORDER_SIDES)]
+    length = [None, 1, 2, 3][(variant // len(BORDER_SIDES)) % 4]
+    sides = side if isinstance(side, list) else [side]
+    room = min([ncols - c for x in sides if x in ("top", "bottom")] + [nrows - r for x in sides if x in ("left", "right")])
+    if length is not None and length > room:
+        length = max(1, room)
+    return side, length
+
+
+def _method_call(sim, ds, table, method, pos, payload, variant=None):
     from numbers_parser import RGB, Border
 
     if method == "cell":
@@ -133,11 +151,17 @@ def _method_call(sim, ds, table, method, pos, payload):
     if method == "write":
         return table.write(*pos, payload if payload is not None else "x")
     if method == "set_cell_style":
-        return table.set_cell_style(*pos, next(iter(ds.doc.styles)))
+        name = next(iter(ds.doc.styles))
+        return table.set_cell_style(*pos, name if not (variant or 0) % 2 else ds.doc.styles[name])
     if method == "set_cell_formatting":
-        return table.set_cell_formatting(*pos, "number", decimal_places=2)
+        kind, kw = FORMAT_VARIANTS[(variant or 0) % len(FORMAT_VARIANTS)]
+        return table.set_cell_formatting(*pos, kind, **kw)
     if method == "set_cell_border":
-        return table.set_cell_border(*pos, "top", Border(1.0, RGB(0, 0, 0), "solid"))
+        side, length = border_variant(variant, *getattr(sim, "_twin_geom", (0, 0, 1, 1)))
+        b = Border([1.0, 2.0, 0.5][(variant or 0) % 3], RGB(0, 0, (variant or 0) % 200), ["solid", "dashes", "dots"][(variant or 0) % 3])
+        if length is None:
+            return table.set_cell_border(*pos, side, b)
+        return table.set_cell_border(*pos, side, b, length)
     msg = f"unknown method {method}"
     raise ValueError(msg)
 
@@ -346,8 +370,9 @@ def op_twin(sim: Sim, a) -> str:
         tables = ds.doc.sheets[si].tables
         with warnings.catch_warnings():
             warnings.simplefilter("ignore")
-            _method_call(sim, ds, tables[0], method, _fmt_pos(r, c, "rc"), v)
-            _method_call(sim, ds, tables[1], method, _fmt_pos(r, c, nota1), v)
+            sim._twin_geom = (r, c, t0.nrows, t0.ncols)
+            _method_call(sim, ds, tables[0], method, _fmt_pos(r, c, "rc"), v, a.get("variant"))
+            _method_call(sim, ds, tables[1], method, _fmt_pos(r, c, nota1), v, a.get("variant"))
         if grew:
             for tb in (tables[0], tables[1]):
                 if (tb.num_rows, tb.num_cols) != (t0.nrows, t0.ncols):
